@@ -620,3 +620,64 @@ func init() {
 		return sc
 	})
 }
+
+func init() {
+	// a snapshot is requested while the FSM is busy, and a membership change commits before the FSM gets to it
+	regScenario("snap-member-slowfsm", func() *Scenario {
+		ns := append(voters(3), NodeSpec{Suffrage: raft.Nonvoter, StartUp: true})
+		committedNotApplied := func(w *World) bool {
+			l := w.stableLeader()
+			return l != nil && w.netIdle() && l.r.CommitIndex() == l.r.LastIndex() && l.fsm.Asked > l.fsm.Permits
+		}
+		return &Scenario{Nodes: ns, SlowFSM: true, Devs: DevAll, Horizon: 700, AutoRestart: true,
+			Conf: func(i int, c *raft.Config) { c.TrailingLogs = 0 },
+			Goal: func(w *World) bool { return w.converged() },
+			Steps: []Step{
+				stepDo("apply1", whenSettled, func(w *World) { w.apply(w.leader(), 0) }),
+				stepDo("snapshot-while-fsm-busy", committedNotApplied, func(w *World) { w.snapshot(w.leader()) }),
+				stepDo("add-nonvoter", func(w *World) bool { return w.stableLeader() != nil && w.netIdle() }, func(w *World) { w.addNonvoter(w.leader(), 3, 0) }),
+				stepDo("apply2", func(w *World) bool {
+					l := w.stableLeader()
+					return l != nil && w.netIdle() && l.r.CommitIndex() == l.r.LastIndex()
+				}, func(w *World) { w.apply(w.leader(), 0) }),
+				stepDo("restart-leader", func(w *World) bool { return whenSettled(w) }, func(w *World) {
+					l := w.leader()
+					w.vals["rl"] = l.id
+					w.crash(l)
+				}),
+				stepDo("start-again", nil, func(w *World) { w.start(w.nodes[w.vals["rl"]]) }),
+				stepDo("apply3", whenSettled, func(w *World) { w.apply(w.leader(), 0) }),
+			}}
+	})
+	// VerifyLeader on a leader that a reachable server in a newer term is about to depose
+	regScenario("verify-deposed", func() *Scenario {
+		ns := voters(3)
+		ns[2].PreVoteDisabled = true
+		return &Scenario{Nodes: ns, Devs: DevAllNet | DevTimer | DevStepEarly, Horizon: 700, Liveness: true,
+			Goal: func(w *World) bool { return w.scriptDone() && w.callsDone() && w.converged() },
+			Steps: []Step{
+				stepApplyLeader("apply1"),
+				stepDo("isolate-n2", func(w *World) bool { return whenSettled(w) && w.leader().id != 2 }, func(w *World) { w.isolate(2, true) }),
+				urgent(stepDo("n2-back-n1-cut+verify", func(w *World) bool {
+					l := w.leader()
+					return l != nil && w.nodes[2].r.CurrentTerm() > l.r.CurrentTerm()
+				}, func(w *World) {
+					l := w.leader()
+					w.vals["L"] = l.id
+					w.isolate(2, false)
+					for _, o := range w.nodes {
+						if o.id != l.id && o.id != 2 {
+							w.cut(l.id, o.id, true)
+						}
+					}
+					w.verify(l)
+				})),
+				stepDo("heal", func(w *World) bool { return w.callsDone() }, func(w *World) {
+					for k := range w.blocked {
+						delete(w.blocked, k)
+					}
+				}),
+				stepDo("apply-final", whenSettled, func(w *World) { w.apply(w.leader(), 0) }),
+			}}
+	})
+}
